@@ -662,6 +662,23 @@ func checkSnap(kind string, sc *snapCase) {
 				tieBad = "model re-encoding of the decoded snapshot differs from the file: " + short(mw)
 			}
 		}
+		if tieBad == "" && len(file) > 48 && len(file) < 1<<16 {
+			// the chunked-reader model of the record loop (decRecsRd, the subject of records_any_chunking) on the record area of
+			// the real file, every Read cut short by a pattern taken from the file's own bytes: must list the records snapr lists
+			var sb strings.Builder
+			for i := 0; i < 64 && 48+i < len(file); i++ {
+				if i > 0 {
+					sb.WriteByte(',')
+				}
+				fmt.Fprint(&sb, int(file[48+i])%7)
+			}
+			mr := o.MustAsk("rdrecs " + f[4] + " " + vlib.Hex(file[48:]) + " " + sb.String())
+			if mr != "ok "+strings.Join(f[4:], " ") {
+				tieBad = "chunked-reader model (rdrecs) on the record area of the file: " + short(mr) + "; framing model (snapr): " + short(strings.Join(f[4:], " "))
+			} else {
+				r.Hit("snap:rdrecs=snapr")
+			}
+		}
 	}
 	if tieBad != "" {
 		if !failed {
@@ -765,6 +782,9 @@ func main() {
 	if p := os.Getenv("VERIF_C10_PROBE"); p != "" {
 		runProbe(p)
 	}
+	if p := os.Getenv("VERIF_C10_LOADDIR"); p != "" {
+		runLoadDirChild(p)
+	}
 	r = vlib.NewRun("C10")
 	var err error
 	o, err = vlib.StartOracle("c10")
@@ -782,6 +802,9 @@ func main() {
 		"process-level effects of save() (rename UTXO.db→UTXO.old, temp file) are not modelled, only the bytes of the files are; the fallback stream lets the real save() produce both files and damages them afterwards (a crash DURING save is property C07's subject)",
 		"PurgeUnspendable removes outputs on purpose (script.IsUnspendable decides which): the purge stream requires every OTHER output and record to be unchanged, it does not judge the criterion",
 		"the forced schedule of the chain-undo stream (undo file serialised after db.commit() returned) is produced by wrapping the utxo.Serialize variable and the vhook point utxo.commit:after-commit; nothing but timing is changed",
+		"utxo.UTXO_PURGE_UNSPENDABLE = false (the library's default) in every stream and in the model: with the flag on — the CLIENT's default configuration sets it — CommitBlockTxs strips unspendable outputs before storing and del also drops unspendable outputs that are not in the undo record, so 'stored = returned' and undo_restores_record hold only for the outputs script.IsUnspendable does not name; one class of the purge stream commits with the flag on and expects exactly the outcome of PurgeUnspendable(true)",
+		"NewUnspentOpts.AbortNow = nil: with it set and true the record loop is left early and a PARTIAL database is returned as a success (the caller's business); not modelled, not driven",
+		"every make(map, …) / Memory_Malloc the loader asks for returns: load_memory_bounded bounds the requests by the file's size (count ≤ size, each length ≤ size, lengths together ≤ 2·size); a machine that cannot hold the file is outside the model (the Go runtime ends the process)",
 		"the loader's map-filling goroutine is folded into the reader in Model.UtxoLoad (a pack is inserted when it is sent): justified by loader_ring_safe and by the error path waiting for the goroutine before the retry (fix eab07278, property C07)",
 	}
 	if r.Replay != "" {
